@@ -2,6 +2,7 @@ package side
 
 import (
 	"bytes"
+	"compress/flate"
 	"compress/gzip"
 	"encoding/json"
 	"fmt"
@@ -60,6 +61,10 @@ type c12Case struct {
 	// dropped by the job's metric relabeling, so Prometheus - which counts after relabeling - accepts the scrape),
 	// label_limit, body_size_limit
 	Limits bool `json:"limits,omitempty"`
+	// AcceptEncoding: what the scraping agent offers in ITS request to the proxy ("" = gzip, as Prometheus).  The
+	// target honours the Accept-Encoding of the request it receives: it answers with the first coding listed there
+	// that it knows (deflate, gzip), else uncompressed.
+	AcceptEncoding string `json:"acceptEncoding,omitempty"`
 }
 
 func (c *c12Case) payload() []byte {
@@ -217,7 +222,16 @@ func runC12(rec *vkit.Recorder, c *c12Case) []vkit.Violation {
 		if c.CType != "" {
 			h.Set("Content-Type", c.CType)
 		}
-		if c.Gzip {
+		first := strings.TrimSpace(strings.Split(strings.Split(r.Header.Get("Accept-Encoding"), ",")[0], ";")[0])
+		switch {
+		case first == "deflate":
+			var zb bytes.Buffer
+			zw, _ := flate.NewWriter(&zb, flate.DefaultCompression)
+			_, _ = zw.Write(pl)
+			_ = zw.Close()
+			body = zb.Bytes()
+			h.Set("Content-Encoding", "deflate")
+		case c.Gzip:
 			body = gzMembers(pl, c.Members)
 			h.Set("Content-Encoding", "gzip")
 		}
@@ -255,7 +269,11 @@ func runC12(rec *vkit.Recorder, c *c12Case) []vkit.Violation {
 	preq := httptest.NewRequest("GET", proxyURL("ja", 7, "h7:80", "/metrics", nil), nil)
 	// the headers a Prometheus scrape carries; the timeout header announces the job's scrape_timeout in seconds
 	preq.Header.Set("Accept", "application/openmetrics-text;version=1.0.0,application/openmetrics-text;version=0.0.1;q=0.75,text/plain;version=0.0.4;q=0.5,*/*;q=0.1")
-	preq.Header.Set("Accept-Encoding", "gzip")
+	if c.AcceptEncoding == "" {
+		preq.Header.Set("Accept-Encoding", "gzip")
+	} else if c.AcceptEncoding != "none" {
+		preq.Header.Set("Accept-Encoding", c.AcceptEncoding)
+	}
 	preq.Header.Set("User-Agent", "Prometheus/2.34.0")
 	tmo := 10 * time.Second
 	if c.Timeout != "" {
@@ -404,6 +422,7 @@ func genC12(t *rapid.T) *c12Case {
 	c.CType = rapid.SampledFrom([]string{"text/plain; version=0.0.4; charset=utf-8", "application/openmetrics-text; version=0.0.1; charset=utf-8", "text/plain", ""}).Draw(t, "ctype")
 	c.Timeout = rapid.SampledFrom([]string{"", "", "900ms", "1500ms", "1s", "14s"}).Draw(t, "timeout")
 	c.Limits = rapid.IntRange(0, 2).Draw(t, "limits") == 0
+	c.AcceptEncoding = rapid.SampledFrom([]string{"", "", "", "deflate, gzip, br, zstd", "none", "identity", "gzip;q=1.0, deflate;q=0.5"}).Draw(t, "acceptEncoding")
 	return c
 }
 
